@@ -301,4 +301,11 @@ def r3d(a, tier):
     return rep
 
 
-RULES = [r_chain, r1_seed_loop, r2_flag_transfer, r3a, r3b, r3c, r3d, r_replay]
+def r5_seeds_never_evicted(a, tier):
+    from .c04 import seeds_never_evicted
+    rep = seeds_never_evicted(a, 'C03.R5')
+    rep.text = '[= C04.R9] ' + rep.text
+    return rep
+
+
+RULES = [r_chain, r1_seed_loop, r2_flag_transfer, r3a, r3b, r3c, r3d, r_replay, r5_seeds_never_evicted]
